@@ -207,7 +207,7 @@ pub fn run(r: &mut Runner) -> &'static str {
     r.rule = "inputs: accepted v2 headers - random (all families, TLV sections empty/well-formed/truncated/random, sizes to 65535, +- trailer) and the valid slice of the control \
               space (24 control pairs x lengths from the family minimum to 65535 over seeded bytes); oracle: algebraic identities between every view and the RAW input \
               (concatenation, sizes per family table, length field, family nibble, big-endian decode of the address view), borrowed and owned. \
-              non-trivial = accepted header with bytes after the address block; distinct by SipHash of the input"
+              non-trivial = accepted header with bytes after the address block; distinct by SipHash of the input Added later: a copy of a copy, clone, clone_from onto longer / shorter / borrowed headers, near-miss candidates (special truncations), reused read buffer at unaligned offsets."
         .into();
     r.assumptions.push("conditioned on the parser accepting the candidate (C02 owns acceptance); rejected candidates are counted as discarded".into());
     let n = r.n(150_000, 3_000_000);
